@@ -1,4 +1,4 @@
-#!/usr/bin/env python3
+#!/venv/bin/python
 """Regenerates MANIFEST.json from the drivers present in vt/props (kept valid at all times)."""
 import json
 import os
@@ -18,6 +18,11 @@ def main():
         pid = p['id']
         if os.path.exists(os.path.join(HERE, 'vt', 'props', pid.lower() + '.py')):
             meta = json.load(open(os.path.join(HERE, 'vt', 'props', 'meta.json'))).get(pid, {})
+            import importlib
+            mod = importlib.import_module('vt.props.' + pid.lower())
+            meta.setdefault('level', 'Exploration by runtime monitoring of the real functions (%s). Workload and oracle: %s Held = held on every monitored execution, not proved for all inputs.' % (mod.TITLE, mod.RULE))
+            meta.setdefault('design_ref', '2/' + pid)
+            meta.setdefault('note', NOTE + ' Assumptions: ' + '; '.join(mod.ASSUMPTIONS))
             checks.append({
                 'property_id': pid,
                 'quick_cmd': '/venv/bin/python vcheck.py --property %s --tier quick' % pid,
